@@ -128,6 +128,13 @@ func (ev *Env) eval(e Expr) Value {
 	case *EIdent:
 		return ev.lookup(x.Name)
 	case *EUn:
+		if x.Op == "&" {
+			pl := ev.evalPlace(x.X)
+			if (pl.Kind == "obj" || pl.Kind == "cell") && len(pl.Path) == 0 {
+				return Scalar{pl.RefTerm, "Int", types.NewPointer(pl.Typ)}
+			}
+			return pl
+		}
 		v := ev.eval(x.X)
 		switch x.Op {
 		case "!":
@@ -750,13 +757,14 @@ func (ev *Env) evalSel(x *ESel) Value {
 	for i := 0; i < stt.NumFields(); i++ {
 		f := stt.Field(i)
 		if f.Name() == x.Name {
+			if pl.Kind == "obj" && len(pl.Path) == 0 && strings.HasPrefix(pl.Prefix, "O!") && embeddedObject(f.Type()) {
+				if _, named := pl.Typ.(*types.Named); named {
+					return fc.loadPlace(ev.cur(), fc.objPlace(fc.derivedRef(pl.Typ, f.Name(), pl.RefTerm), f.Type()))
+				}
+			}
 			np := pl
 			np.Path = append(append([]string(nil), pl.Path...), f.Name())
 			np.Typ = f.Type()
-			// pointer-to-struct fields and embedded structs stay places when the field is itself a struct
-			if _, isSt := f.Type().Underlying().(*types.Struct); isSt && !fc.structIsFlat(f.Type()) {
-				return np
-			}
 			return fc.loadPlace(ev.cur(), np)
 		}
 	}
@@ -1001,6 +1009,17 @@ func (ev *Env) evalCall(x *ECall) Value {
 			ref = ev.asScalar(v).T
 		}
 		return Scalar{"(> " + ref + " " + fc.allocTerm(ev.old) + ")", "Bool", types.Typ[types.Bool]}
+	case "allocated":
+		// allocated(x): the reference x was allocated no later than the state in which this is evaluated
+		v := arg(0)
+		var ref string
+		switch b := v.(type) {
+		case SliceV:
+			ref = b.Base
+		default:
+			ref = ev.asScalar(v).T
+		}
+		return Scalar{"(and (<= 0 " + ref + ") (<= " + ref + " " + fc.allocTerm(ev.cur()) + "))", "Bool", types.Typ[types.Bool]}
 	case "held":
 		v := arg(0)
 		key, ref, _, _ := fc.lockKey(v)
@@ -1073,7 +1092,7 @@ func (ev *Env) evalCall(x *ECall) Value {
 			ev.fail("tagis: unknown type %s", tn)
 		}
 		fc.declIface()
-		return Scalar{"(= (tagof " + v.T + ") " + fc.typeTag(t) + ")", "Bool", types.Typ[types.Bool]}
+		return Scalar{"(and (not (= " + v.T + " 0)) (= (tagof " + v.T + ") " + fc.typeTag(t) + "))", "Bool", types.Typ[types.Bool]}
 	case "int", "int64", "uint64", "byte", "uint8", "uint32", "int32", "uint", "uint16":
 		v := arg(0)
 		to, _ := ev.resolveSpecType(name)
@@ -1130,6 +1149,50 @@ func (ev *Env) evalCall(x *ECall) Value {
 	case "substr":
 		a := ev.asScalar(arg(0))
 		return Scalar{"(str.substr " + a.T + " " + ev.idx(arg(1)) + " " + ev.idx(arg(2)) + ")", "String", a.Typ}
+	}
+	if pd := fc.eng.predFor(ev.pkg, name); pd != nil {
+		if len(x.Args) != len(pd.Params) {
+			ev.fail("%s expects %d arguments", name, len(pd.Params))
+		}
+		saved := map[string]Value{}
+		had := map[string]bool{}
+		var vals []Value
+		for i := range pd.Params {
+			vals = append(vals, arg(i))
+		}
+		for i, p := range pd.Params {
+			if old, ok := ev.vars[p.Name]; ok {
+				saved[p.Name] = old
+				had[p.Name] = true
+			}
+			v := vals[i]
+			if l, isL := v.(LitV); isL {
+				v = ev.litTo(l, nil)
+			}
+			// give pointer parameters their declared type so that fields resolve
+			if sc, isS := v.(Scalar); isS && p.Type != "" {
+				if t, _ := ev.resolveSpecType(p.Type); t != nil {
+					if _, isPtr := t.Underlying().(*types.Pointer); isPtr {
+						sc.Typ = t
+						v = sc
+					}
+				}
+			}
+			ev.vars[p.Name] = v
+		}
+		savedPkg, savedFr := ev.pkg, ev.fr
+		ev.pkg = pd.Pkg
+		ev.fr = nil
+		r := ev.eval(pd.Body)
+		ev.pkg, ev.fr = savedPkg, savedFr
+		for _, p := range pd.Params {
+			if had[p.Name] {
+				ev.vars[p.Name] = saved[p.Name]
+			} else {
+				delete(ev.vars, p.Name)
+			}
+		}
+		return r
 	}
 	// spec function?
 	if sf := fc.eng.specFunc(ev.pkg, name); sf != nil {
@@ -1335,4 +1398,71 @@ func (fc *FuncCtx) applyGhostUpdate(ev *Env, st *State, gu *GhostUpdate) {
 		}
 	}
 	fc.unsupported("unsupported ghost update target %s", gu.Target.String())
+}
+
+// evalPlace evaluates an l-value expression (x.f, x.f.g) to a place.
+func (ev *Env) evalPlace(e Expr) PlaceV {
+	fc := ev.fc
+	sel, ok := e.(*ESel)
+	if !ok {
+		ev.fail("cannot take the address of %s", e.String())
+	}
+	var base PlaceV
+	if inner, isSel := sel.X.(*ESel); isSel {
+		// x.f.g: try x.f as a place first (embedded struct), else as a pointer value
+		func() {
+			defer func() {
+				if r := recover(); r != nil {
+					if _, isU := r.(unsupportedErr); !isU {
+						panic(r)
+					}
+					v := ev.eval(inner)
+					pl, ok := ev.placeOf(v)
+					if !ok {
+						ev.fail("cannot take the address of %s", e.String())
+					}
+					base = pl
+				}
+			}()
+			bp := ev.evalPlace(inner)
+			if _, isSt := bp.Typ.Underlying().(*types.Struct); !isSt {
+				// a pointer-typed field: dereference
+				v := fc.loadPlace(ev.cur(), bp)
+				pl, ok := ev.placeOf(v)
+				if !ok {
+					ev.fail("cannot take the address of %s", e.String())
+				}
+				bp = pl
+			}
+			base = bp
+		}()
+	} else {
+		v := ev.eval(sel.X)
+		pl, ok := ev.placeOf(v)
+		if !ok {
+			ev.fail("cannot take the address of %s (base is %T)", e.String(), v)
+		}
+		base = pl
+	}
+	stt, ok := base.Typ.Underlying().(*types.Struct)
+	if !ok {
+		ev.fail("address of field %s of non-struct", sel.Name)
+	}
+	for i := 0; i < stt.NumFields(); i++ {
+		f := stt.Field(i)
+		if f.Name() != sel.Name {
+			continue
+		}
+		if base.Kind == "obj" && len(base.Path) == 0 && strings.HasPrefix(base.Prefix, "O!") && embeddedObject(f.Type()) {
+			if _, named := base.Typ.(*types.Named); named {
+				return fc.objPlace(fc.derivedRef(base.Typ, f.Name(), base.RefTerm), f.Type())
+			}
+		}
+		np := base
+		np.Path = append(append([]string(nil), base.Path...), f.Name())
+		np.Typ = f.Type()
+		return np
+	}
+	ev.fail("no field %s in %s", sel.Name, base.Typ)
+	return PlaceV{}
 }
